@@ -46,9 +46,10 @@ def run(ctx: Ctx):
             terms = M.dedupe(M.gen_terms(rng, missing_p=0.0, lit_p=0.15))
             f = M.formula_string(terms)
         out = rng.choice(["pandas", "numpy", "sparse"])
-        rp = {"kind": "metadata", "formula": f, "output": out, "levels": nlev, "rows": n}
+        cluster = rng.choice(["none", "none", "numerical_factors"])
+        rp = {"kind": "metadata", "formula": f, "output": out, "levels": nlev, "rows": n, "cluster_by": cluster}
         try:
-            mm = model_matrix(f, df, output=out)
+            mm = model_matrix(f, df, output=out, cluster_by=cluster)
         except Exception as e:
             continue
         ms = mm.model_spec
@@ -60,7 +61,12 @@ def run(ctx: Ctx):
             ctx.fail(f"column_names {names} differ from the labels {list(mm.columns)}", rp)
         if arr.shape[1] != len(names):
             ctx.fail(f"{len(names)} column names for {arr.shape[1]} columns", rp)
-        flat = [ix for t in ms.terms for ix in ms.term_indices[t]]
+        # in the order in which the terms were materialized (the recorded structure; with cluster_by this is not the formula order)
+        flat = [ix for row in ms.structure for ix in ms.term_indices[row.term]]
+        for row in ms.structure:
+            want_ix = [k for k, c in enumerate(names) if c in row.columns] if len(set(names)) == len(names) else None
+            if want_ix is not None and list(ms.term_indices[row.term]) != want_ix:
+                ctx.fail(f"term {row.term!r} is given columns {list(ms.term_indices[row.term])}; its columns {list(row.columns)} are at {want_ix}", rp)
         if flat != list(range(arr.shape[1])):
             ctx.fail(f"term index ranges {dict(ms.term_indices)} are not a contiguous ordered partition of 0..{arr.shape[1]-1}", rp)
         rows_lit, look, slices = [], [], []
@@ -107,7 +113,7 @@ def run(ctx: Ctx):
             sub = ms.subset(Formula(keep, _ordering="none"))
             sm = sub.get_model_matrix(df)
             sarr = np.asarray(sm.toarray() if out == "sparse" else sm, dtype=float)
-            parent_ix = [k for t in keep for k in ms.term_indices[t]]
+            parent_ix = [k for row in sub.structure for k in ms.term_indices[row.term]]
             if list(sub.column_names) != [names[k] for k in parent_ix] or not np.array_equal(sarr, arr[:, parent_ix], equal_nan=True):
                 ctx.fail(f"the spec subset to {keep} does not regenerate the parent's columns {parent_ix}", rp)
         except Exception as e:
